@@ -44,12 +44,15 @@ AbstractClauses(tr, stage) ==
             (IF tr.y2 # tr.y THEN {"Idempotent"} ELSE {}))
     [] stage = "OtherYangFiles" ->
          \* two other YANG files of the same document: yr = the converter's output with its keyed lists listed in
-         \* another order (as someone writing YANG by hand may do), yw = the file the converter's WRITER (dump_data,
+         \* another order (as someone writing YANG by hand may do), yq = the same with every identityref leaf written
+         \* with its module name ("gnpy-network-topology:Roadm"; both spellings are valid YANG JSON), yw = the file the converter's WRITER (dump_data,
          \* the convert_legacy_yang command) produces.  lr / lw are what yang_to_legacy makes of them.
          \* Both must mean what the converter's in-memory output means (which RoundTrip compares with the document).
          IF Failed(tr, "l2y") \/ Failed(tr, "y2l") \/ ~HasDoc(tr.l) THEN {} ELSE
            (IF Failed(tr, "reordered") \/ ~HasDoc(tr.lr) THEN {"ConvertsReorderedYang"}
             ELSE IF tr.lr # tr.l THEN {"KeyedListOrderIrrelevant"} ELSE {})
+           \cup (IF Failed(tr, "qualified") \/ ~HasDoc(tr.lq) THEN {"ConvertsQualifiedYang"}
+                 ELSE IF tr.lq # tr.l THEN {"IdentitySpellingIrrelevant"} ELSE {})
            \cup (IF Failed(tr, "written") \/ ~HasDoc(tr.lw) THEN {"WritesYangFile"}
                  ELSE IF tr.lw # tr.l THEN {"WrittenFileMeansTheSame"} ELSE {})
     [] stage = "Load" ->
